@@ -7,6 +7,11 @@ VERIF = os.path.dirname(os.path.dirname(os.path.abspath(__file__)))
 
 # id -> (level, technique, level text, level note, design ref)
 CLAIMED = {
+    "C32": ("exploration",
+            "deterministic simulation: scripted bus histories (owner lookup result, genuine and forged ownership changes, signals from owner / former owner / strangers) in seeded wire orders around stream creation; owner-tracking reference model",
+            "The fake bus places genuine NameOwnerChanged signals, matching signals from three senders, forged ownership claims and unrelated traffic before and after the owner-lookup reply and in later rounds. The yielded sequence must contain exactly the signals whose sender owned the name at their wire position (signals sent while the stream was being created may be missing), in order.",
+            "The bus timeline is conformant (the lookup reply carries the owner at its wire position); only timing and third-party traffic are adversarial.",
+            "DESIGN.md §3 C32"),
     "C36": ("exploration",
             "deterministic simulation: RequestName/ReleaseName histories against a conformant fake bus with seeded reply delays, genuine and forged ownership signals; name-status reference model",
             "A real bus-mode connection (handshake + Hello) runs histories of request/release interleaved with bus-side events (another connection owning, releasing, taking over names; forged NameAcquired/NameLost from a peer). After each step the observable behaviour (local AlreadyOwner/InQueue answers without bus traffic vs. exactly one RequestName on the bus; release true iff held or queued) must equal the {none, owner, queued} model.",
